@@ -460,7 +460,21 @@ fn main() {
             let node = all[q.node];
             let cd: Vec<xot::NameId> = q.cdata.iter().map(|i| names[*i]).collect();
             let params = html5::Parameters { indentation: if q.indent { Some(Indentation { suppress: q.suppress.iter().map(|i| names[*i]).collect() }) } else { None }, cdata_section_elements: cd.clone() };
-            let res = guard(|| html.serialize_string(params, node));
+            let res = guard(|| html.serialize_string(params.clone(), node));
+            // the Write-based entry point and the *_with_normalizer forms (no-op normaliser) give the same bytes / the same refusal
+            {
+                let mut buf: Vec<u8> = vec![];
+                let w = guard(|| html.serialize_write(params.clone(), node, &mut buf));
+                let mut buf2: Vec<u8> = vec![];
+                let w2 = guard(|| html.serialize_write_with_normalizer(params.clone(), node, &mut buf2, xot::output::NoopNormalizer));
+                let s2 = guard(|| html.serialize_string_with_normalizer(params.clone(), node, xot::output::NoopNormalizer));
+                let want: Option<&[u8]> = match &res { Ok(Ok(s)) => Some(s.as_bytes()), _ => None };
+                for (label, got) in [("serialize_write", match &w { Ok(Ok(())) => Some(&buf[..]), _ => None }),
+                                     ("serialize_write_with_normalizer", match &w2 { Ok(Ok(())) => Some(&buf2[..]), _ => None }),
+                                     ("serialize_string_with_normalizer", match &s2 { Ok(Ok(s)) => Some(s.as_bytes()), _ => None })] {
+                    if got != want { out.fail(&case, "html-write-differs", &format!("query {}: {} gives {:?} where serialize_string gives {:?}", qi, label, got.map(String::from_utf8_lossy), want.map(String::from_utf8_lossy))); }
+                }
+            }
             stats.bump(if q.indent { "params.indent" } else { "params.plain" });
             match res {
                 Err(()) => { obs.push("PANIC".to_string()); out.fail(&case, "html-panic", &format!("query {}: HTML5 serialisation panicked", qi)); stats.bump("result.panic"); }
